@@ -36,7 +36,10 @@ E2E_T = e2e('transfer', 'TestVerifE2ETransfer')
 E2E_PR = e2e('pr', 'TestVerifE2EPR')
 E2E_SD = e2e('shutdown', 'TestVerifE2EShutdown')
 E2E_HS = e2e('handshake', 'TestVerifE2EHandshake', nq=384, nt=3000)
-E2E_RS = e2e('reset', 'TestVerifE2EReset')
+E2E_RS = dict(e2e('reset', 'TestVerifE2EReset'), corpus_glob='d*.ops')
+# stream reset, direct drive: two real established associations, packet histories, object handles; L0 model Rs
+RSD = {'test': 'TestVerifReset', 'comp': 'rs', 'quick': {'VERIF_N': 64}, 'thorough': {'VERIF_N': 400},
+       'seeds': {'quick': 1, 'thorough': 8}, 'corpus_glob': 'rs_*.ops'}
 E2E_API = e2e('api', 'TestVerifE2EAPI')
 E2E_TD = e2e('teardown', 'TestVerifE2ETeardown', nq=400, nt=2000)
 
@@ -60,7 +63,7 @@ CODEC = {'test': 'TestVerifCodec', 'comp': 'codec', 'quick': {'VERIF_N': 1500}, 
 
 PROPS = {
     'C05': {'jobs': [RQ, ARCV]},
-    'C16': {'jobs': [GENF, RQ, ASND, ARCV]},
+    'C16': {'jobs': [GENF, RQ, ASND, ARCV, RSD]},
     'C01': {'jobs': [REASM, ASND, ARCV, E2E_T], 'assumptions': [
         'sender half (Props/C01wire.lean): payload BYTES are not in the sender model (lengths and fragment identity only); that a chunk carries the matching slice of the written buffer is observed by the e2e content hashes',
         'receive-side system theorem (C01_receiver_prefix): chunks are the fragments of the peer\'s messages (universe of Reasm.Sender per stream, fewer than 2^31 TSNs in all), reliable streams only (no FORWARD-TSN, no reset in the run)',
@@ -85,7 +88,14 @@ PROPS = {
         'theorems are about the L0 model Hs (two endpoints + packet histories); the model is replayed line by line against two real associations driven by a packet shuffler (TestVerifHandshake)',
         'the blocking behaviour of Client/Server calls, T1 retry budget and connect failure are covered by the e2e handshake scenarios and by C19 theorems, not by the Hs model',
         'verification tags and ports are not part of the model (the implementation does not check inbound verification tags)']},
-    'C14': {'jobs': [E2E_RS], 'rule': E2E_RULE},
+    'C14': {'jobs': [RSD, E2E_RS], 'assumptions': [
+        'theorems are about the L0 model Rs (two established endpoints + packet histories, stream objects by handle); the model is replayed line by line against two real associations (TestVerifReset)',
+        'oracles (quantified over in the theorems, recorded from the real code in the harness): which pending entries leave the queue in one gatherOutbound call (congestion / flow control, scheduler), which sent chunks are retransmitted (T3, fast retransmit, RACK), whether a SACK is due',
+        'TSN / RSN / SSN / MID are natural numbers in Rs (no wrap-around; serial arithmetic is C16), initial TSNs are not 0, messages are unfragmented, the receive buffer is never full, fewer than 1000 deferred requests; where a run leaves this domain the model prints UNSUPPORTED',
+        'Rs keeps every performed request number; the exact rememberPerformedReset (trim above 2048 entries) is modelled separately (PerfSet) and the driver flags disagreement',
+        'C14_eof_after_data judges an identifier while the applications re-open it only in states where both directions were reset (Sys.quiet, evaluated on the real state by the harness as q=)',
+        'association shutdown / abort and blocking calls are outside the model (e2e reset scenarios cover them by exploration)',
+    ]},
     'C10': {'jobs': [ASND, E2E_T], 'assumptions': [
         'L0 model Model/Sender.lean is hand-written; its window tests / updates / congestion formulas / chunk sizes are translator-generated Gen.* defs; the rest is tied by comparing every op of the direct-drive harness',
         'oracles (quantified over in the theorems, recorded from the real code in the harness): TLR burst budget, pending-queue selection, RACK/PTO loss marks, T3 expiries during a clock tick',
